@@ -33,6 +33,8 @@ def match_slot(exp, slot):
             return slot.get("u") == exp["u"]
         return True
     if k == "dur":
+        if "parts" in exp and "parts" in slot and slot["parts"] != exp["parts"]:
+            return False
         return slot["d"] == exp["d"] and slot["s"] == exp["s"]
     if k == "date":
         return slot["day"] == exp["day"]
